@@ -566,7 +566,14 @@ def install_auc(sess, max_pairs=6000):
         if combo == ("fpr", "tpr"):
             exp = float(R.step_area(pos, neg, ep, en, sc, lower, upper))
         elif combo == ("fpr", "fnr"):
-            exp = (upper - lower) - float(R.step_area(pos, neg, ep, en, sc, lower, upper))
+            # (the floor: the limits and grid points are floats, so a width may be off by an ulp of 1 - times an FNR of at most nb_hard_pos/P)
+            # exact, and judged relative to its own size: beside billions of easy positives every FNR value is of the order 1e-9, and
+            # an area of that size is still a ratio of counts (an FNR obtained as 1 - TPR would only be good to 1e-16 *absolutely*)
+            from fractions import Fraction as _F
+
+            exact = (_F(upper) - _F(lower)) - R.step_area(pos, neg, ep, en, sc, lower, upper)
+            exp = float(exact)
+            sess.check("M-auc", abs(got - exp) <= 1e-9 * abs(exp) + 8e-16 * (len(pos) / (len(pos) + ep)), "partial AUC (FNR over FPR) differs from the exact step-ROC area, relative to its size", w(exp), sig=sig, key="auc-partial-rel")
         elif combo == ("tnr", "tpr"):
             exp = float(R.step_area(pos, neg, ep, en, sc, 1.0 - upper, 1.0 - lower))
         else:
@@ -1281,6 +1288,10 @@ def _binary_in_scope(m):
 
 
 def _cells(m, cells):
+    m = np.asarray(m)
+    if m.dtype.kind in "iub":
+        # exact counts, whatever the width of the cell type: the oracle must not add in uint8/int32 (nor treat True + True as True)
+        m = m.astype(np.int64) if (m.dtype.itemsize < 8 or m.dtype.kind == "b") else m
     return sum(m[..., r, c] for r, c in cells)
 
 
@@ -1521,7 +1532,9 @@ def install_state(sess):
             if x is None:
                 return
             xa = np.asarray(x)
-            if xa.dtype.kind not in "fiub" or (xa.dtype.kind == "f" and np.isnan(xa).any()):
+            # a NaN *threshold* is still "any threshold array": whatever the library answers for it, the vectorised call and the scalar call
+            # on that element must answer the same (both go through the same search); NaN targets of threshold setting stay out of scope
+            if xa.dtype.kind not in "fiub" or (xa.dtype.kind == "f" and np.isnan(xa).any() and kind != "rate"):
                 sess.skip("M-shape", "non-numeric / NaN input")
                 return
             rel_ok = True
